@@ -26,7 +26,9 @@ import (
 	"strings"
 	"time"
 
+	"github.com/cloudwego/thriftgo/generator/golang"
 	"github.com/cloudwego/thriftgo/generator/golang/templates"
+	"github.com/cloudwego/thriftgo/parser"
 
 	"verifharness/internal/batch"
 	"verifharness/internal/idlgen"
@@ -167,8 +169,11 @@ def tpl : Gen.Mask.Tpl := { preMut := %v, zeroAll := %v, blackAll := %v, reqSub 
 /-- fieldmask/storage.go _MaxFieldIDHead: field ids 0..headMax are kept in an array, all others in a map (the model of C14 keeps
 one association list; the harness aims field ids at headMax-1, headMax, headMax+1 on every run) -/
 def headMax : Nat := %d
+/-- generator/golang/thrift.go IsIntType / IsStrType asked for every category a map key can have: (category, IsIntType, IsStrType).
+FieldWriteMap / FieldReadMap query Int(int(k)) for the first, Str(string(k)) for the second, Int(0) for neither. -/
+def keyDispatch : List (String × Bool × Bool) := [%s]
 end Generated.C13
-`, l, zeroAll, blackAll, reqSub, hm)
+`, l, zeroAll, blackAll, reqSub, hm, keyDispatchRows())
 	return nil
 }
 
@@ -205,6 +210,24 @@ func (c *check) line() string {
 		toks = append(toks, strconv.Itoa(e.pos), maskSpec(e.black, e.tree, false))
 	}
 	return strings.Join(toks, " ") + " " + c.value.String()
+}
+
+// keyDispatchRows asks the real golang.IsIntType / golang.IsStrType (the harness is linked against the tree under test).
+func keyDispatchRows() string {
+	cats := []struct {
+		name string
+		c    parser.Category
+	}{
+		{"bool", parser.Category_Bool}, {"byte", parser.Category_Byte}, {"i16", parser.Category_I16}, {"i32", parser.Category_I32},
+		{"i64", parser.Category_I64}, {"double", parser.Category_Double}, {"string", parser.Category_String}, {"binary", parser.Category_Binary},
+		{"enum", parser.Category_Enum}, {"struct", parser.Category_Struct}, {"union", parser.Category_Union}, {"exception", parser.Category_Exception},
+	}
+	var rows []string
+	for _, c := range cats {
+		t := &parser.Type{Category: c.c}
+		rows = append(rows, fmt.Sprintf("(%q, %v, %v)", c.name, golang.IsIntType(t), golang.IsStrType(t)))
+	}
+	return strings.Join(rows, ", ")
 }
 
 // headMax reads `_MaxFieldIDHead` from fieldmask/storage.go of the repository under test (the last field id kept in the array part
@@ -335,6 +358,9 @@ func run(repo, dir string, seed uint64, nprog, nvalues, nmasks int, keep bool) i
 	}
 	for _, o := range optionSets {
 		units = append(units, batch.Unit{Prog: uniqueFiles(wideProgram(pool), len(units)), Recurse: true, Options: o, Tag: "directed", NoSynth: true})
+	}
+	for _, o := range optionSets {
+		units = append(units, batch.Unit{Prog: uniqueFiles(keysProgram(), len(units)), Recurse: true, Options: o, Tag: "directed", NoSynth: true})
 	}
 	for j, o := range optionSets {
 		if j == 1 {
